@@ -6,11 +6,12 @@ EXTENDS Registry
 
 CONSTANTS Enabled,   \* op classes that may occur in histories
           MaxGen,    \* bound on record creations
-          CfgSW, CfgNidl, CfgSO
+          CfgSW, CfgNidl, CfgSO, CfgRmErr
 
-VARIABLES st, enr
+VARIABLES st, enr,
+          pend    \* token fetches that have loaded their token and not yet removed it ("Race" \in Enabled)
 
-vars == <<st, enr>>
+vars == <<st, enr, pend>>
 
 Ops ==
   (IF "Authorize" \in Enabled THEN AuthorizeOps ELSE {}) \cup
@@ -25,17 +26,33 @@ Ops ==
   (IF "Fetch" \in Enabled THEN FetchReqsN ELSE {}) \cup
   (IF "Rotate" \in Enabled THEN RotateOps ELSE {})
 
-Init == st = InitState([sw |-> CfgSW, nidl |-> CfgNidl, so |-> CfgSO]) /\ enr = [t \in Tokens |-> {}]
+Init == st = InitState([sw |-> CfgSW, nidl |-> CfgNidl, so |-> CfgSO, rmerr |-> CfgRmErr]) /\ enr = [t \in Tokens |-> {}] /\ pend = {}
 
 TokenEnrol(o, res) == o.op = "Fetch" /\ o.n \in Tokens /\ ~HasWrapped(o) /\ ~HasRewrapped(o) /\ res = "issued"
 
-Next == \E o \in Ops :
+Atomic == \E o \in Ops :
           LET out == Apply(st, o) IN
             /\ out.res # "skip"
             /\ out.st # st          \* no-op transitions add nothing: invariants already judge every request in every state
             /\ out.st.gen <= MaxGen
             /\ st' = out.st
             /\ enr' = IF TokenEnrol(o, out.res) THEN [enr EXCEPT ![o.n] = @ \cup {o.k}] ELSE enr
+            /\ pend' = pend
+
+\* The token fetch as the code runs it: two critical sections.  TokLoad: load the token record, check it (live, not
+\* expired, key not registered).  TokFinish: remove the token record - refused only where removing an absent entry is
+\* an error - then authorise the key.
+TokLoad == "Race" \in Enabled /\ \E k \in CertKeys, e \in EncKeys, t \in Tokens :
+             /\ Live(st.tokens[t]) /\ ~st.nodes[k].present /\ [k |-> k, e |-> e, t |-> t, s |-> st.tokens[t].state] \notin pend
+             /\ pend' = pend \cup {[k |-> k, e |-> e, t |-> t, s |-> st.tokens[t].state]}
+             /\ UNCHANGED <<st, enr>>
+TokFinish == \E p \in pend :
+             /\ pend' = pend \ {p}
+             /\ IF (~Live(st.tokens[p.t]) /\ st.cfg.rmerr) \/ st.gen >= MaxGen THEN UNCHANGED <<st, enr>>
+                ELSE /\ st' = AuthorizeCommon([st EXCEPT !.tokens[p.t] = [st |-> "gone", state |-> NONE]], p.k, p.e, p.t, p.s)
+                     /\ enr' = [enr EXCEPT ![p.t] = @ \cup {p.k}]
+
+Next == Atomic \/ TokLoad \/ TokFinish
 
 Spec == Init /\ [][Next]_vars
 
